@@ -427,6 +427,10 @@ func main() {
 		"sockets, clock, context and sync primitives are the models of engine/shim (conformance-tested against the real ones); crypto/tls is the real library over the modelled sockets",
 		"virtual time advances only when no thread can run",
 	}
+	if path := os.Getenv("VERIF_SUMMARY"); path != "" {
+		b, _ := json.Marshal(r.Cov)
+		os.WriteFile(path, b, 0o644)
+	}
 	os.Exit(r.Finish("model_checking"))
 }
 
@@ -605,8 +609,8 @@ func watchdog() {
 			continue
 		}
 		last := vrt.LastActivity.Load()
-		if last != 0 && time.Since(time.Unix(0, last)) > 30*time.Second {
-			fmt.Fprintln(os.Stderr, "sched: watchdog: no scheduling activity for 30 s (native blocking?) - inconclusive")
+		if last != 0 && time.Since(time.Unix(0, last)) > 10*time.Second {
+			fmt.Fprintln(os.Stderr, "sched: watchdog: no scheduling activity for 10 s (native blocking?) - inconclusive")
 			os.Exit(3)
 		}
 	}
